@@ -2,9 +2,3 @@
 static const OpInfo NOOPS[] = { { "nop", 0 } };
 static void gen_none(Plan* p, Rng* r) { (void)p; (void)r; }
 static void exec_none(const Plan* p) { (void)p; }
-#ifndef HAVE_SCEN_THREADS
-const Scenario scen_threads = { "threads", NOOPS, 1, gen_none, exec_none, "C13" };
-#endif
-#ifndef HAVE_SCEN_DISPATCH
-const Scenario scen_dispatch = { "dispatch", NOOPS, 1, gen_none, exec_none, "C08" };
-#endif
